@@ -34,7 +34,7 @@ impl Engine for ClusterSimEngine {
             id: "C07",
             level: "exploration",
             rule: "per run one real ClusterActor with configured replication factor in {1,2,3,5} (quorum 1..3) over a store populated with 1-18 single/multi-event transactions across 1-3 streams carrying arbitrary confirmation counts (below/at/above quorum); then a PRNG interleaving of real ConfirmTransaction messages (raising counts, stale lower counts, duplicates, any order), node restarts, and reads of every kind: ReadEvent of any event, ReadPartition and ReadStream with PRNG start/end/count (including ranges that straddle the watermark and count limits inside transactions), GetPartitionSequence, GetStreamVersion. The model keeps the maximum count delivered per transaction; its watermark is the length of the longest prefix whose transactions all carry a quorum count. Every answer is checked: no returned event, sequence or version at or beyond the model watermark. Non-trivial = the final watermark lies strictly inside the log and a multi-event transaction exists.",
-            quick_runs: 600,
+            quick_runs: 2400,
             thorough_runs: 20000,
             real_components: &["sierradb_cluster::ClusterActor read handlers (ReadEvent, ReadPartition, ReadStream, GetPartitionSequence, GetStreamVersion), ConfirmTransaction handler", "ConfirmationActor / BucketConfirmationManager / AtomicWatermark", "sierradb::Database", "TopologyManager inside the actor's swarm (single node)"],
             stub_components: &["no peers: forwarding of reads to other replicas is not exercised here (it is in the C10/C11 cluster runs)"],
@@ -43,7 +43,7 @@ impl Engine for ClusterSimEngine {
             id: "C08",
             level: "fault_enumeration",
             rule: "per run: rf in {1,2,3,5}, a partition of 2-16 single/multi-event transactions stored in a real Database with target counts below/at/above quorum, and a PRNG permutation of confirmation deliveries (final count of every transaction at least once plus stale lower counts, duplicates and single-version deliveries); the on-disk count is written before each update is reported. Live oracle after every update (monotone, <= prefix of versions whose maximum reported count reaches quorum, = that prefix at the end). Crash enumeration: the confirmation directory is snapshotted at every step of every persist_bucket_state (hook) plus every 32-byte prefix of the temp file; a fresh manager is initialised from each snapshot against the database. Non-trivial = a stale lower count delivered after a higher one above the watermark and a snapshot between the two renames.",
-            quick_runs: 4000,
+            quick_runs: 6000,
             thorough_runs: 120000,
             real_components: &["sierradb_cluster::confirmation::BucketConfirmationManager / PartitionConfirmationState / AtomicWatermark", "sierradb::Database (set_confirmations, read_partition)", "tokio::fs on the blocking pool (awaited)"],
             stub_components: &["ConfirmationActor mailbox (the manager is driven directly)", "wall/monotonic clock (simulated through the hook shim)"],
@@ -52,7 +52,7 @@ impl Engine for ClusterSimEngine {
             id: "C09",
             level: "exploration",
             rule: "per run 1 or 3 real ClusterActors (rf 1 or 3), real client writes (single/multi-event, 1-2 partition keys, 1-2 streams, in one run out of four preceded by 55-115 writes to one stream so that history spans several read batches) and a subscriber played by the simulator: real Subscribe messages for partition, multi-partition, all-partition, stream and multi-stream matchers with start None / 0 / k and window 1/2/5/1000 on any node, acknowledgements with PRNG lag, time advances, and for 3 nodes message loss, delay, stragglers (late ConfirmTransaction leaves watermark holes), link cuts and isolation. After every operation the update channels are drained: cursors consecutive, per partition sequences / per stream versions strictly consecutive from the start position (no gap, duplicate or reordering), only matching events, unacknowledged deliveries <= window. After faults stop and everything is acknowledged: every delivered event lies inside the node's confirmed prefix and equals the log, and everything confirmed from the start position (or, for a from-now subscription, from what was confirmed at subscribe time) has been delivered. Non-trivial = at least one subscription received records and at least two writes were acknowledged.",
-            quick_runs: 400,
+            quick_runs: 800,
             thorough_runs: 12000,
             real_components: &["sierradb_cluster::subscription (SubscriptionManager, Subscription::run/read_*_history/send_record, SubscriptionMatcher)", "ConfirmationActor broadcast (UpdateConfirmationWithBroadcast / UpdateConfirmation)", "ClusterActor write and confirmation paths, Database, topology (as C10)"],
             stub_components: CLUSTER_STUB,
@@ -61,7 +61,7 @@ impl Engine for ClusterSimEngine {
             id: "C10",
             level: "exploration",
             rule: C10_RULE,
-            quick_runs: 400,
+            quick_runs: 700,
             thorough_runs: 12000,
             real_components: CLUSTER_REAL,
             stub_components: CLUSTER_STUB,
@@ -70,7 +70,7 @@ impl Engine for ClusterSimEngine {
             id: "C11",
             level: "exploration",
             rule: C10_RULE,
-            quick_runs: 400,
+            quick_runs: 700,
             thorough_runs: 12000,
             real_components: CLUSTER_REAL,
             stub_components: CLUSTER_STUB,
@@ -79,7 +79,7 @@ impl Engine for ClusterSimEngine {
             id: "C12",
             level: "exploration",
             rule: "per run a ground-truth log of 4-44 single/multi-event transactions for one partition; the simulated coordinator sends them as ReplicateWrite messages to the real PartitionReplicatorActor in a windowed or full PRNG shuffle with duplicates (same transaction id), conflicts (other transaction, same sequence), stale and far-ahead writes, buffer sizes {1,2,4,64}, withheld writes, clock advances past the catch-up and buffer timeouts, and catch-up answers {error, empty, partial, complete} through the transport seam. At every quiescent point: the partition log only grows, every applied transaction sits whole and once at the sequence its message assigned, Ok replies match the log, no unanswered unexpired write is left at or below the next expected sequence; after the last delivery every write is answered within buffer+catch-up timeout; the actor must stay alive. Non-trivial = a multi-event transaction delivered before its predecessor together with a duplicate or conflict.",
-            quick_runs: 1600,
+            quick_runs: 3200,
             thorough_runs: 40000,
             real_components: &["sierradb_cluster::write::replicate::PartitionReplicatorActor (buffer_write, pop_next_buffered_write, write_transaction, detect_and_handle_gaps, PartitionSyncResponse)", "OrderedQueue / TimeoutOrderedQueue", "ConfirmationActor", "sierradb::Database", "kameo local actors and mailboxes", "tokio paused clock"],
             stub_components: &["the coordinator (simulator) and the network: catch-up requests go to the transport seam", "ClusterActor's sender/staleness checks in front of the replicator are not run here", "failsafe breaker inside the replicator reads the real monotonic clock"],
@@ -88,7 +88,7 @@ impl Engine for ClusterSimEngine {
             id: "C22",
             level: "exploration",
             rule: "per run one real ClusterActor (N = 1, rf = 1; 1..32 partitions) and the real RESP server serving one client connection over an in-memory duplex pipe; the simulator is the client and sends a PRNG history of 8-78 commands from the documented grammar as RESP3 arrays, delivered in PRNG chunks (partial frames): EAPPEND and EMAPPEND (1-4 events over 1-4 streams, new and existing streams, multi-stream transactions, every EXPECTED_VERSION form right and wrong, explicit and default partition keys, explicit event ids, boundary timestamps 0 / now / u64::MAX/10^6 and beyond, strict-versioning on or off), EGET of known and unknown ids, ESCAN and EPSCAN with PRNG start/end/count (- and +, count 0..100, by partition id or key), ESVER, EPSEQ, ESUB/EPSUB <target> FROM n WINDOW w with their pushed messages (cursor consecutive, contents and order equal to the model from the start position, outstanding <= window, complete after everything is acknowledged) and EACK (known and unknown subscription), PING, and 12 kinds of invalid request; one append in three has a read pipelined behind it in the same write, half of those with the confirmation actor's mailbox held back (hook K7). A reference event-store model decides accept/reject and every reply field: sequences and per-event stream versions reported by appends, event contents and timestamps, scan contents, has_more never false while events of the requested range were left out, versions and sequences; invalid requests must answer an error and the connection must stay usable (a closed connection is a violation). Non-trivial = at least three events stored.",
-            quick_runs: 1200,
+            quick_runs: 4000,
             thorough_runs: 40000,
             real_components: &["sierradb_server::server (Conn::run request loop, frame decoding, reply encoding) and every request handler (request/*.rs, parser.rs)", "sierradb_cluster::ClusterActor write and read paths (single node)", "sierradb::Database"],
             stub_components: &["the TCP socket (in-memory duplex pipe, hook S1)", "only the single-stream / single-partition forms of ESUB/EPSUB are driven here; the multi and MAP forms are checked below the RESP layer in C09"],
@@ -97,7 +97,7 @@ impl Engine for ClusterSimEngine {
             id: "C14",
             level: "exploration",
             rule: "per run a configuration (N in 1..12 or {255,256,257,300,512,1000}, buckets, partitions, rf 1..12) and 1-5 live nodes with boundary-biased configured indices, each a real topology Behaviour around a real TopologyManager; a PRNG sequence of connection up/down (real FromSwarm events), silent partitions, node restarts with a new alive_since, and time advances that fire the real heartbeat and timeout intervals; every published message is broadcast over the simulated bus with per-recipient delay, loss and reordering. After every delivery/tick: each node's replica set of every partition is exactly the owners among the nodes it knows live (itself included), no duplicates, at most min(rf,N); any two nodes with identical membership knowledge hold identical replica sets and identical get_available_replicas order. After faults stop and all nodes are connected: membership converges within two heartbeat rounds and all nodes agree. Static part (1 in 3 runs and all large N): over all N configured nodes every partition has exactly min(rf,N) owners and, with all members known, its replica set is exactly those owners. Non-trivial = at least 3 live nodes and at least two ownership messages delivered.",
-            quick_runs: 3000,
+            quick_runs: 6000,
             thorough_runs: 120000,
             real_components: &["sierradb_topology::TopologyManager", "sierradb_topology::Behaviour message glue (heartbeat/ownership encode+decode, add_explicit_peer, ConnectionEstablished/Closed handling, heartbeat and timeout intervals via poll)", "tokio paused clock", "libp2p gossipsub Behaviour object (constructed, connection bookkeeping only)"],
             stub_components: &["gossipsub message propagation and the libp2p swarm/transport (simulated bus delivers the published bytes)", "wall/monotonic clock (simulated through the hook shim)"],
